@@ -410,6 +410,11 @@ func Maps() map[string]interface{} {
 		"keys": map[string]interface{}{"b": 1, "a": 2, "c": 3},
 		"l":    []interface{}{map[string]interface{}{"a": ok(1), "b": er}, map[string]interface{}{"a": er, "b": ok(2)}},
 		"top":  5,
+		// maps whose keys are not strings: never iterable, but membership tests range over their keys
+		"im3": map[int]interface{}{1: ok(1), 2: er, 3: ok(2)},
+		"ifk": map[interface{}]int{"x": 1, struct{ A int }{1}: 2, 5: 3, 2.5: 4, true: 5},
+		"ifl": []interface{}{"x", struct{ A int }{1}, 5, nil, 2.5},
+		"nk3": map[NString]interface{}{"a": ok(1), "b": er, "c": ok(2)},
 	}
 }
 
